@@ -15,7 +15,7 @@ package main
 //	         plants = off:hex,off:hex…  (bytes planted into the filler)
 //	result : off=<pos|none> <exit=<rc> files=ok | fall | fail | misfound | …>
 //
-//	payload: proc <tree> <rc> <arg-hex,…|->   (the real CLI binary of the tree under test, packed,
+//	payload: proc <tree> <rc> <arg-hex,…|-> <abs|bare|decoy|rel|dotdot|symlink>   (the real CLI binary of the tree under test, packed,
 //	         started as a child process with these arguments, stdin at EOF)
 //	result : proc srcmarker=<0|1> exit=<code> entry=<ran|notrun> clean=<0|1>
 //
@@ -936,6 +936,9 @@ type c20Tree struct {
 	dir   string            // directory on disk
 	files map[string]string // zip path -> content
 	entry string            // entry program template; %d is replaced by the number to return
+	// refuse: the pack tool must not build an executable from this tree but report an error (a root
+	// file with the reserved name .ecalsrc-entry; a symbolic link it cannot pack as a file)
+	refuse bool
 	// what the entry returns for rc
 }
 
@@ -996,14 +999,31 @@ func c20Setup() {
 			"x := %d\nx\n"},
 		// 5: many small files in many directories
 		{c20Many(), "x := %d\nx\n"},
+		// 6: a root file with the name the archive reserves for the entry (an impostor that would
+		//    return 99) — the pack tool has to refuse the project; in a sub directory it is harmless
+		{map[string]string{".ecalsrc-entry": "log(\"IMPOSTOR\")\n99\n", "sub/.ecalsrc-entry": "harmless", "main.ecal": "1\n"}, "x := %d\nx\n"},
+		// 7: the reserved name only in a sub directory: an ordinary project
+		{map[string]string{"sub/.ecalsrc-entry": "harmless", "lib/a.ecal": lib}, "import \"lib/a.ecal\" as a\na.add(%d, 0)\n"},
+		// 8: a symbolic link to a directory (see links below): cannot be packed as a file — refuse
+		{map[string]string{"real/x.ecal": lib, "main.ecal": "1\n"}, "x := %d\nx\n"},
+		// 9: a dangling symbolic link, followed (in name order) by other entries — refuse
+		{map[string]string{"a.txt": "a", "z/last.txt": "z"}, "x := %d\nx\n"},
 	}
+	links := map[int]map[string]string{8: {"alink": "real"}, 9: {"blink": "nowhere", "y/inner": "../missing"}}
 	for k, s := range specs {
 		t := &c20Tree{dir: filepath.Join(c20Scratch, fmt.Sprintf("tree%d", k)), files: s.files, entry: s.entry}
+		_, collides := s.files[".ecalsrc-entry"]
+		t.refuse = collides || len(links[k]) > 0
 		check(os.MkdirAll(t.dir, 0755))
 		for name, content := range s.files {
 			p := filepath.Join(t.dir, filepath.FromSlash(name))
 			check(os.MkdirAll(filepath.Dir(p), 0755))
 			check(os.WriteFile(p, []byte(content), 0644))
+		}
+		for name, dest := range links[k] {
+			p := filepath.Join(t.dir, filepath.FromSlash(name))
+			check(os.MkdirAll(filepath.Dir(p), 0755))
+			check(os.Symlink(dest, p))
 		}
 		// an empty directory: not a file, must not disturb anything
 		check(os.MkdirAll(filepath.Join(t.dir, "emptydir", "nested"), 0755))
@@ -1094,7 +1114,10 @@ func c20CLIPath() (string, error) {
 // result: `proc srcmarker=<0|1> exit=<code> entry=<ran|notrun> clean=<0|1>` — clean: nothing
 // but the entry's own log line was printed (no usage text, prompt or error of the plain CLI).
 func c20RunProc(fs []string) string {
-	if len(fs) != 4 {
+	form := "abs"
+	if len(fs) == 5 {
+		form = fs[4]
+	} else if len(fs) != 4 {
 		return "bad-payload"
 	}
 	treeNo, _ := strconv.Atoi(fs[1])
@@ -1148,8 +1171,34 @@ func c20RunProc(fs []string) string {
 	os.Chmod(dst, 0755)
 	ctx, cancel := context.WithTimeout(context.Background(), 6*time.Second) // below the per-case limit
 	defer cancel()
+	// how the executable is started: what argv[0] and the working directory look like
 	cmd := exec.CommandContext(ctx, dst, args...)
 	cmd.Dir = cwd
+	switch form {
+	case "abs": // absolute path
+	case "bare", "decoy": // found through $PATH by a shell: argv[0] is the bare name, cwd is elsewhere
+		cmd.Args[0] = filepath.Base(dst)
+		if form == "decoy" { // … and the cwd has an unrelated file of the same name
+			if err := os.WriteFile(filepath.Join(cwd, filepath.Base(dst)), []byte("an unrelated file\n"), 0644); err != nil {
+				return "ERR " + oneLine(err.Error())
+			}
+		}
+	case "rel": // ./app.bin from its directory
+		cmd = exec.CommandContext(ctx, "./"+filepath.Base(dst), args...)
+		cmd.Dir = filepath.Dir(dst)
+	case "dotdot": // cwd/../app.bin
+		cmd = exec.CommandContext(ctx, "cwd/../"+filepath.Base(dst), args...)
+		cmd.Dir = filepath.Dir(dst)
+	case "symlink": // through a symbolic link with another name in another directory
+		link := filepath.Join(cwd, "link-to-app")
+		if err := os.Symlink(dst, link); err != nil {
+			return "ERR " + oneLine(err.Error())
+		}
+		cmd = exec.CommandContext(ctx, link, args...)
+		cmd.Dir = cwd
+	default:
+		return "bad-payload"
+	}
 	cmd.Stdin = strings.NewReader("")
 	cmd.Env = append(os.Environ(), "HOME="+cwd)
 	out, err := cmd.CombinedOutput()
@@ -1179,6 +1228,19 @@ func c20RunProc(fs []string) string {
 
 // ---------------------------------------------------------------- one case
 
+// c20TreeNo parses the tree field: a number, followed by `r` if the pack tool has to refuse the tree.
+func c20TreeNo(s string) int {
+	n, _ := strconv.Atoi(strings.TrimSuffix(s, "r"))
+	return n
+}
+
+func c20TreeTok(t int) string {
+	if c20Trees[t].refuse {
+		return fmt.Sprintf("%dr", t)
+	}
+	return fmt.Sprint(t)
+}
+
 func c20Run(payload string) string {
 	fs := strings.Split(payload, " ")
 	if fs[0] == "proc" {
@@ -1196,7 +1258,7 @@ func c20Run(payload string) string {
 	seed, _ := strconv.ParseUint(fs[3], 10, 64)
 	plants := c20ParsePlants(fs[4])
 	ws := unhx(fs[5])
-	treeNo, _ := strconv.Atoi(fs[6])
+	treeNo := c20TreeNo(fs[6])
 	rc, _ := strconv.Atoi(fs[7])
 	zip4 := unhx(fs[8])
 	tree := c20Trees[treeNo]
@@ -1231,7 +1293,9 @@ func c20Run(payload string) string {
 		p.LogOut = io.Discard
 		p.Dir, p.SourceBinary, p.TargetBinary, p.EntryFile = &tree.dir, &src, &dst, entry
 		if err := p.Pack(); err != nil {
-			return "ERR pack " + oneLine(err.Error())
+			// the pack tool reported an error instead of building an executable
+			CountRun("pack refused")
+			return "pack-refused"
 		}
 		exe = dst
 		data, err := os.ReadFile(dst)
@@ -1290,6 +1354,10 @@ func c20ExecInProcess(exe string, trueStart int64, tree *c20Tree, treeNo int, en
 			// not the archive Pack wrote: whatever the zip reader makes of it is not compared
 			return off + " misfound"
 		}
+		// the section handed to the zip reader ends at the end of the file (archive_exact)
+		if st, err := os.Stat(exe); err != nil || c20Hook.pos+c20Hook.len != st.Size() {
+			return off + fmt.Sprintf(" section-length:%d", c20Hook.len)
+		}
 	}
 	switch {
 	case failed != "":
@@ -1310,10 +1378,11 @@ func c20ExecInProcess(exe string, trueStart int64, tree *c20Tree, treeNo int, en
 	if !c20Hook.filesHit {
 		return res + " files=unobserved"
 	}
-	want := map[string]string{".ecalsrc-entry": entryText}
+	want := map[string]string{}
 	for k, v := range tree.files {
 		want[k] = v
 	}
+	want[".ecalsrc-entry"] = entryText // the entry is what runs, whatever the tree contains
 	if len(c20Hook.files) != len(want) {
 		return res + fmt.Sprintf(" files=count:%d/%d", len(c20Hook.files), len(want))
 	}
@@ -1535,7 +1604,7 @@ func c20Gen(g *Gen) {
 			seed = g.R.U64() % 2147483648
 		}
 		g.Count(class)
-		g.Emit(fmt.Sprintf("%s %d %d %d %s %s %d %d %s", pk, n, kind, seed, c20PlantStr(plants), hx(ws), tree, rc, c20Zip4))
+		g.Emit(fmt.Sprintf("%s %d %d %d %s %s %s %d %s", pk, n, kind, seed, c20PlantStr(plants), hx(ws), c20TreeTok(tree), rc, c20Zip4))
 	}
 	// strides: the first window is bufSize long, every later one advances by bufSize-keep;
 	// the scanner before the repair advanced by b1 or b1+b2. Cover two periods of the
@@ -1592,7 +1661,16 @@ func c20Gen(g *Gen) {
 				as = strings.Join(hs, ",")
 			}
 			g.Count("real process")
-			g.Emit(fmt.Sprintf("proc %d %d %s", t, 20+ti*40+ai, as))
+			g.Emit(fmt.Sprintf("proc %d %d %s abs", t, 20+ti*40+ai, as))
+		}
+	}
+	// … and the ways an executable gets started: found through $PATH (bare argv[0], the working
+	// directory is elsewhere, with and without an unrelated file of the same name there), relative
+	// paths, a symbolic link
+	for fi, form := range []string{"bare", "decoy", "rel", "dotdot", "symlink"} {
+		for ai, as := range []string{"-", hx("run")} {
+			g.Count("real process, start form " + form)
+			g.Emit(fmt.Sprintf("proc %d %d %s %s", 1-ai, 150+fi*2+ai, as, form))
 		}
 	}
 	// 1c. sequences: the target already exists (an earlier, other project packed into it, or an
